@@ -248,6 +248,7 @@ pub fn run_case(ctx: &mut Ctx, fam: &str, _k: u64, r: &mut Rng) {
         Err(_) => return,
     };
     h.track_slots = false;
+    kept_deltas_enable(true);
     let steps = ctx.tier.n(30, 60) as usize;
     let mut kinds: Vec<&'static str> = vec![];
     let mut nontrivial = false;
@@ -302,12 +303,21 @@ pub fn run_case(ctx: &mut Ctx, fam: &str, _k: u64, r: &mut Rng) {
         }
         kinds.push(kind);
         h.verify_snapshots();
+        if let (_, Some(msg)) = kept_deltas_verify() {
+            h.fail("mutated-adjoint-kept-by-user-closure", msg);
+        }
     }
     // drop every handle of the program; the registered aliases must still show their snapshots
     for x in h.handles.iter_mut() {
         *x = None;
     }
     h.verify_snapshots();
+    let (n_kept_deltas, changed) = kept_deltas_verify();
+    if let Some(msg) = changed {
+        h.fail("mutated-adjoint-kept-by-user-closure", msg);
+    }
+    kept_deltas_enable(false);
+    ctx.count("adjoints_kept_by_user_closures", n_kept_deltas as u64);
     ctx.case(&h.text(), nontrivial);
     for k in &kinds {
         ctx.count(&format!("steps_{}", k), 1);
